@@ -85,11 +85,20 @@ def gen_partition_case(seed, idx, wellformed=True, max_nodes=260, force=None):
             case.op(line, "ok")
             case.op("P.dump", dump_part(part))
             if wellformed:
+                # arity of every split cell of the tree (a child list may grow after the split that created it)
+                arity_now = {"binary": 2, "randBinary": 2, "dimBinary": 2 ** d, "kary": K, "randKary": K}[kind]
+                for nd_ in part._all:
+                    ch_ = nd_.get_children()
+                    if ch_ is not None and len(ch_) != arity_now:
+                        case.fail("C02", "arity", f"cell (depth {nd_.get_depth()}, index {nd_.get_index()}) has {len(ch_)} children, documented arity {arity_now}",
+                                  step=step, kind=kind, K=K, d=d)
+                        break
                 for c in calls:
                     par = part._all[c["parent"]]
                     kids = [part._all[i] for i in c["created"]]
+                    nch = len(par.get_children()) if (par.get_children() is not None and c is calls[-1]) else None
                     for sig, det in monitors.c02_split(kind, K, par.get_domain(), [k.get_domain() for k in kids],
-                                                       [k.get_cpoint() for k in kids], c):
+                                                       [k.get_cpoint() for k in kids], c, n_children=nch):
                         case.fail("C02", sig, det, step=step, kind=kind, K=K, d=d)
                 for sig, det in monitors.c03_tree(part):
                     case.fail("C03", sig, det, step=step, kind=kind, K=K, d=d, via="partition-ops")
